@@ -184,6 +184,6 @@ func TestC01_lifetime(t *testing.T) {
 			}
 			return c
 		},
-		Run: runC01L, NoShrink: true, Timeout: 90 * time.Minute,
+		Run: runC01L, NoShrink: true, Timeout: 90 * time.Minute, OneShard: true,
 	})
 }
